@@ -326,7 +326,7 @@ func LargeCFG(r *rand.Rand) *PGrammar {
 	stmts := nonterm("Stmts")
 	stmt := nonterm("Stmt")
 	block := nonterm("Block")
-	levels := 3 + r.Intn(6)
+	levels := 5 + r.Intn(5)
 	exprs := make([]int, levels)
 	for i := range exprs {
 		exprs[i] = nonterm(fmt.Sprintf("E%d", i))
@@ -360,7 +360,7 @@ func LargeCFG(r *rand.Rand) *PGrammar {
 		if i+1 < levels {
 			next = exprs[i+1]
 		}
-		nops := 1 + r.Intn(4)
+		nops := 2 + r.Intn(3)
 		right := r.Intn(3) == 0
 		for k := 0; k < nops; k++ {
 			op := term()
